@@ -20,7 +20,7 @@ def stateText (d : DS) : String :=
 
 def lastAdd (d : DS) (x : Nat × Nat) : Option Nat := (d.added.find? (·.1 == x)).map (·.2)
 
-def step (d : DS) (ws : List String) : DS × String :=
+def stepBase (d : DS) (ws : List String) : DS × String :=
   match ws with
   | ["reset", m, k, half, ro, _, _, now] =>
     match parseNats [m, k, half, (now.drop 4).toString] with
@@ -99,5 +99,18 @@ def step (d : DS) (ws : List String) : DS × String :=
     let r := delete d.now d.st
     ({ d with st := r.1, added := [] }, "ok " ++ call "del" keys5 "" (":" ++ toString r.2))
   | _ => (d, "bad-op")
+
+/-- `overlap <opA…> / <opB…>`: opA was parked in the client before its arguments were read while opB
+ran to completion, so the server executed opB first; the model's answer for each is the ordinary one
+(the arguments of a call depend on its own items only, `Rv.C35.argv_depends_only_on_item`). -/
+def step (d : DS) (ws : List String) : DS × String :=
+  match ws with
+  | "overlap" :: rest =>
+    let a := rest.takeWhile (· != "/")
+    let b := (rest.dropWhile (· != "/")).drop 1
+    let r1 := stepBase d b
+    let r2 := stepBase r1.1 a
+    (r2.1, r2.2 ++ " | " ++ r1.2)
+  | _ => stepBase d ws
 
 def main : IO Unit := Hex.lineLoop ({} : DS) step
